@@ -10,7 +10,7 @@ CLAIMS = {
    ref="§2 C01"),
  "C08": dict(
    text="Sibling analysis of each single-entity operation and its batch form: equal sets of storage primitives applied and equal classes of panic guards (modulo a short reasoned asymmetry table), the returned count summed from table lengths read before rows move, batch range provenance and consumption, bulk rows indexed at their allocated row, whole-handle comparison when skipping unchanged targets.",
-   note="Does not decide equality of the resulting world states. The pair table and asymmetries are listed in checker/rules_c08.go.",
+   note="One genuine, unrepaired defect is a known finding (P2 in known_findings.json, reproducer repro/P2): a batch exchange with empty add and remove lists returns 0 instead of the number of matching entities; the unedited test suite pins that value, so it cannot be repaired. Does not decide equality of the resulting world states. The pair table and asymmetries are listed in checker/rules_c08.go.",
    technique="static analysis: sibling effect-set comparison (Engler-style deviance) and provenance rules on go/ssa",
    ref="§2 C08"),
 
@@ -109,7 +109,7 @@ CLAIMS = {
 
  "C09": dict(
    text="Static proof obligations over the SSA form of every exported entry point (both mask-width builds; thorough adds debug and 386): a world-lock test with a panicking locked edge precedes the first write to entity/table/graph/component-registry state on every path (interprocedural guard summaries over a VTA call graph), the registration rollback is complete, every acquired lock is released or handed to the returned query exactly once, and path summaries show Next/Step close exactly once iff they return false. This is the part of the property that is visible in the shape of the code on every path; it is decided for all paths rather than for sampled ones.",
-   note="Decides structural necessary conditions only: not lock counts at run time, not that a panicking call leaves every observable unchanged beyond 'no structural write before the test', not listener re-entrancy. Trusted: go/types, go/ssa, VTA over-approximation, the guard-idiom recogniser (call or inline `if locked {panic}`), state-class table in checker/modset.go.",
+   note="One genuine, unrepaired defect is a known finding (P1 in known_findings.json, reproducer repro/P1): a second Close of a finished query whose lock bit was re-issued releases the other query's lock; a test of the unedited suite passes only because of it, so it cannot be repaired. Decides structural necessary conditions only: not lock counts at run time, not that a panicking call leaves every observable unchanged beyond 'no structural write before the test', not listener re-entrancy. Trusted: go/types, go/ssa, VTA over-approximation, the guard-idiom recogniser (call or inline `if locked {panic}`), state-class table in checker/modset.go.",
    technique="static analysis: interprocedural must-precede dataflow on go/ssa + mod-set summaries + path summaries",
    ref="§2 C09"),
 }
